@@ -136,6 +136,27 @@ def main():
         else:
             v.violation(dict(f["replay"], property="C05", signature=f["signature"], what=f["text"]))
     v.cov["compound_estimator_histories"] = zn
+    # several epochs (fit(X, max_iter > 1)) against the model (BaseArt_epochs.v), and what it proves read off the implementation
+    import epochfam as E
+    rng_e = C.make_rng(seed, "C05-epochs")
+    estrs, einfo = [], []
+    for _ in range(200 if tier == "quick" else 2000):
+        ke, oe = E.gen_epoch_case(rng_e)
+        est_e, re_ = E.run_epoch_case(ke, oe)
+        estrs.append(E.case_coq(ke, oe, re_))
+        why = E.book_of_history(est_e, len(oe["X"]), int(oe["iters"])) if re_["ok"] else None
+        einfo.append((dict(B.summary(ke, [oe]), max_iter=int(oe["iters"])), why))
+    ecodes, ebad = flow.coq_corr("C05e", "RunBaseN", estrs, shard=100, check_fn="nepcheck", extra_imports="From ARTcorr Require Import RunBase.\n")
+    for b in ebad:
+        v.notes.append("coq shard failed: " + b[-600:])
+    for code, (summ_e, why) in zip(ecodes, einfo):
+        if why:
+            v.violation(dict(summ_e, property="C05", signature="BaseART.fit/several-epochs-book", what="fit with several epochs: " + why))
+        elif code != 0:
+            v.violation({"property": "C05", "kind": "no-failing-input-found", "broken_correspondence": {"case": summ_e, "runner_code": code,
+                         "theorem_or_check": "corr/RunBaseN.v (BaseArt_epochs.fit_iters) vs BaseART.fit(max_iter > 1)"}}, no_input=True)
+    v.cov["several_epoch_fits_against_model"] = len(estrs)
+    v.cov["traces_validated_against_impl"] = v.cov.get("traces_validated_against_impl", 0) + sum(1 for x in ecodes if x == 0)
     sys.exit(v.finish())
 
 
